@@ -1443,6 +1443,25 @@ func genCLI(tier string) []*tcase {
 		c.to = mk(v.to, "tz")
 		add(c, "random/"+v.name)
 	}
+	// 9. (round 5) migrate lint runs that have NO new files: an empty directory with --latest N,
+	// --git-base on a branch that adds nothing (change detector: base = head). The session is
+	// opened all the same: a non-empty dev database is refused exactly like in runs with files.
+	for _, sn := range []string{"absent", "empty", "bk-seq", "tables", "combo-V", "combo-HR", "autoinc", "virtual-fts", "unread-table",
+		"name-view-underscore", "name-two-underscore", "hidden-sqlitedb"} {
+		st := startByName(sn)
+		for _, latest := range []int{1, 3} {
+			c := (&tcase{norm: "0", cmd: "lint", latest: latest, changes: true}).setStart(st)
+			c.from, c.to = source{kind: "none"}, source{kind: "none"}
+			add(c, "nofiles/empty-dir")
+		}
+		for _, shape := range []string{"", "ck"} {
+			m := 0
+			c := (&tcase{norm: "0", cmd: "lint", latest: 0, changes: true, via: "git"}).setStart(st)
+			c.dir = baseDir(&m, shape)
+			c.from, c.to = source{kind: "none"}, source{kind: "none"}
+			add(c, "nofiles/git-base-head")
+		}
+	}
 	return cs
 }
 
@@ -1487,6 +1506,23 @@ func main() {
 		parallel(len(cases), func(i int) { results[i] = runCLI(cases[i], bin, tmpRoot) })
 	case "api":
 		cases, results = genRunAPI(*tier, tmpRoot)
+	case "tx", "scen", "mysql", "pg":
+		// round-5 stages (tx.go, scen.go, server.go): their own case types and oracles
+		var rc int
+		switch *mode {
+		case "tx":
+			rc = txMain(w, *tier, tmpRoot)
+		default:
+			rc = extraMain(*mode, w, *tier, tmpRoot)
+		}
+		if rc != 0 {
+			w.Close()
+			if strings.HasPrefix(tmpRoot, "/dev/shm/verif-c14-") {
+				os.RemoveAll(tmpRoot)
+			}
+			os.Exit(rc)
+		}
+		return
 	default:
 		fmt.Fprintln(os.Stderr, "unknown mode")
 		os.Exit(2)
